@@ -138,6 +138,6 @@ func (o *c06Oracle) nontrivial() (bool, []string) {
 }
 
 func TestVerifC06(t *testing.T) {
-	standardTest(t, "C06", "TestVerifC06", runOpts{minLen: 5, maxLen: 80, captchaSometimes: true, gen: ircgen.Options{WithMoD: true, AllowLF: true}},
+	standardTest(t, "C06", "TestVerifC06", runOpts{minLen: 5, maxLen: 80, captchaSometimes: true, profileMix: true, gen: ircgen.Options{WithMoD: true, AllowLF: true}},
 		func(rec *vh.Recorder) oracle { return &c06Oracle{rec: rec} })
 }
